@@ -114,7 +114,7 @@ Print Assumptions C17_contextual_transition_shape.
 Theorem C17_reverse_paired : forall ng d s p p', run_subtable ng d s p = Ok p' ->
   exists b0 b1 ops amb,
     maybe_reverse (sub_reverse d s) (p_buf p) = Ok b0 /\
-    apply_subtable (ms_kind s) ng None b0 (p_ops p) = Ok (b1, ops, amb) /\
+    apply_subtable (ms_kind s) ng None (p_ecap p) b0 (p_ops p) = Ok (b1, ops, amb) /\
     maybe_reverse (sub_reverse d s) b1 = Ok (p_buf p').
 Proof. exact run_subtable_paired. Qed.
 Print Assumptions C17_reverse_paired.
